@@ -260,8 +260,14 @@ func Run(t *testing.T, cfg Config, body func(s *Sim)) (res Result) {
 	func() {
 		defer func() {
 			if r := recover(); r != nil {
-				// synctest's own deadlock panic: a task blocked outside the runtime.
-				s.infra = fmt.Sprintf("bubble panic: %v", r)
+				// synctest's own deadlock panic: a task blocked outside the runtime. After a
+				// violation this is expected (the run was cut short, un-woven helper goroutines may be
+				// left behind) and the violation is what gets reported.
+				if s.viol == nil {
+					s.infra = fmt.Sprintf("bubble panic: %v", r)
+				} else {
+					s.notes["bubble_panic_after_violation"] = fmt.Sprint(r)
+				}
 				active = nil
 			}
 		}()
@@ -1103,6 +1109,10 @@ func (s *Sim) SetStrategy(st Strategy) Strategy {
 	}
 	return prev
 }
+
+// Settle waits until every goroutine of the bubble other than the caller is durably blocked
+// (lets un-woven helper goroutines, e.g. database/sql's context watchers, finish reacting).
+func (s *Sim) Settle() { synctest.Wait() }
 
 // SetMaxSimTime changes the simulated-time budget of the run.
 func (s *Sim) SetMaxSimTime(d time.Duration) { s.cfg.MaxSimTime = d }
